@@ -359,6 +359,8 @@ def is_optional(
 ) -> bool:
     if resolved_type_params is None:
         resolved_type_params = {}
+    if is_annotated(typ):
+        typ = get_type_origin(typ)
     if not is_union(typ):
         return False
     args = get_args(typ)
